@@ -1,6 +1,6 @@
 /-
 Model driver for C16.  Ops:
-  cmp t1 id1 v1 ts1 vis1 t2 id2 v2 ts2 vis2  -> "lt nots rev eq eqti idorder" (each 0/1)
+  cmp t1 id1 v1 ts1 vis1 t2 id2 v2 ts2 vis2  -> "lt nots rev eq eqti idorder gt le ge ne" (each 0/1)
   chk k:id k:id ...  (k in n,w,r)             -> "1" if accepted else "0"
 -/
 import Osmium.Model.Order
@@ -36,7 +36,8 @@ def step (line : String) : String :=
       match parseObj rest' with
       | some (b, []) =>
         " ".intercalate [b01 (objLt a b), b01 (objLtNoTs a b), b01 (objLtRev a b),
-          b01 (objEq a b), b01 (objEqTypeId a b), b01 (idOrder a.id b.id)]
+          b01 (objEq a b), b01 (objEqTypeId a b), b01 (idOrder a.id b.id),
+          b01 (objGt a b), b01 (objLe a b), b01 (objGe a b), b01 (objNe a b)]
       | _ => "bad-op"
     | none => "bad-op"
   | "chk" :: rest =>
